@@ -61,10 +61,28 @@ TblOps ==
         ELSE {})
   \cup (IF NOps("rendercbs") < 2 /\ Len(st.cb) > 0 THEN {[op |-> "rendercbs", t |-> 1]} ELSE {})
 
-Ops == IF Family = "ec" THEN EcOps ELSE TblOps
+\* Family "two": two tables; rows (with errors recorded before and after) join either table, both, or one of them
+\* twice; a failing column callback of either table at render time
+TwoOps ==
+  (IF Len(st.row) < MaxRowsE THEN
+     {[op |-> "newrow", how |-> "new", t |-> 1, cap |-> 0]} \cup {[op |-> "rowitems", t |-> t, items |-> <<It("a")>>] : t \in {1, 2}}
+   ELSE {})
+  \cup {[op |-> "rowerr", r |-> r, e |-> e] : r \in {x \in DOMAIN st.row : ~st.row[x].sep}, e \in {E}}
+  \cup {[op |-> "tblerr", t |-> t, e |-> E] : t \in {x \in {1, 2} : Cardinality({i \in DOMAIN hist : hist[i].op = "tblerr" /\ hist[i].t = x}) < 1}}
+  \cup (IF NOps("addrow") < 3 THEN {[op |-> "addrow", t |-> t, r |-> r] : t \in {1, 2}, r \in {x \in DOMAIN st.row : ~st.row[x].sep}} ELSE {})
+  \cup {[op |-> "rowadd", r |-> r, item |-> It("c")] : r \in {x \in DOMAIN st.row : Len(st.row[x].cells) < 1}}
+  \cup (IF Len(st.cb) < MaxCbs THEN
+          {[op |-> "regcb", t |-> t, owner |-> [kind |-> "column", t |-> t, n |-> 1], time |-> "post", target |-> "cell", fails |-> 1] :
+             t \in {x \in {1, 2} : st.tbl[x].ncols >= 1}}
+        ELSE {})
+  \cup (IF NOps("rendercbs") < 2 /\ Len(st.cb) > 0 THEN {[op |-> "rendercbs", t |-> t] : t \in {1, 2}} ELSE {})
+
+Ops == IF Family = "ec" THEN EcOps ELSE IF Family = "two" THEN TwoOps ELSE TblOps
 
 NewT == [op |-> "newtable", via |-> "core"]
-Init == /\ st = Apply(InitState, NewT, <<>>) /\ hist = <<NewT>>
+Init == IF Family = "two"
+        THEN /\ st = Apply(Apply(InitState, NewT, <<>>), NewT, <<>>) /\ hist = <<NewT, NewT>>
+        ELSE /\ st = Apply(InitState, NewT, <<>>) /\ hist = <<NewT>>
 Next == /\ Len(hist) < MaxHist
         /\ \E op \in Ops :
              /\ st' = Apply(st, op, ImplEvents(st, SlotsOfAll(st, op)))
